@@ -68,7 +68,7 @@ func genRecs(t *simrt.Tape, n, base int, withQual bool, minLen, maxLen int) []Re
 			r.Annot = map[string]any{"k": fmt.Sprintf("v%d", t.Choose(5))}
 		}
 		if t.Choose(3) == 1 {
-			r.Def = []string{"a definition", "x", "with > and @ and + signs"}[t.Choose(3)]
+			r.Def = []string{"a definition", "x", "with > and @ and + signs", "C\u00f4te d'Ivoire \u03b2-tubulin \u2192 5'"}[t.Choose(4)]
 		}
 		recs[i] = r
 	}
